@@ -1,2 +1,219 @@
-//! Harnesses for property C01 (see /verif/properties.jsonl).
+//! Harnesses for property C01 (see /verif/properties.jsonl): clock steps never exceed the
+//! configured panic thresholds; when a correction would violate one the daemon stops instead.
+//!
+//! The oracle (`common::step_allowed`) is written from the property text in exact integer
+//! arithmetic and is evaluated by the recording clock at the moment `step_clock` is called.
+use crate::common::*;
 use crate::stubs;
+use ntp_proto::verif::algorithm::kalman as kh;
+use ntp_proto::verif::algorithm::InternalTimeSyncController;
+use ntp_proto::verif::time_types as tt;
+use ntp_proto::{AlgorithmConfig, KalmanClockController, NtpDuration, SynchronizationConfig};
+
+/// How the correction (f64 seconds) and its conversion to duration units are modelled.
+#[derive(Clone, Copy, PartialEq)]
+enum Conv {
+    /// real `NtpDuration::from_seconds`; the correction is a whole number of seconds (any i32, or
+    /// any i32 times 256, so that both the in-range and the saturating arm are reached). The expected amount is then
+    /// known in integer arithmetic: clamp(s) << 32.
+    WholeSeconds,
+    /// arbitrary finite correction; `NtpDuration::from_seconds` is replaced by an arbitrary
+    /// deterministic function (same input, same output) - the threshold logic must hold for
+    /// whatever amount the conversion yields. (Two bit-blasted copies of the real conversion of an
+    /// arbitrary f64 are not proved equal by the SAT solver within 10 minutes: measured.)
+    Uninterpreted,
+}
+
+/// ghost state of the uninterpreted conversion
+pub static mut CONV_IN: u64 = 0;
+pub static mut CONV_OUT: i64 = 0;
+pub static mut CONV_OTHER: i64 = 0;
+pub fn from_seconds_uf(seconds: f64) -> NtpDuration {
+    unsafe {
+        // same input, same output; any other input (configuration defaults built during set-up)
+        // maps to an unrelated arbitrary value
+        if seconds.to_bits() == CONV_IN { tt::dur_from_raw(CONV_OUT) } else { tt::dur_from_raw(CONV_OTHER) }
+    }
+}
+
+/// (correction in seconds, its value in duration units)
+fn any_correction(conv: Conv) -> (f64, i64) {
+    match conv {
+        Conv::WholeSeconds => {
+            // any i32 number of seconds, or (far = true) that number times 2^8: beyond +-2^31 s
+            // the conversion saturates
+            let s32: i32 = kani::any();
+            let far: bool = kani::any();
+            let s: i64 = if far { (s32 as i64) << 8 } else { s32 as i64 };
+            let d = if s < i32::MIN as i64 {
+                i64::MIN
+            } else if s > i32::MAX as i64 {
+                i64::MAX
+            } else {
+                s << 32
+            };
+            (s as f64, d)
+        }
+        Conv::Uninterpreted => {
+            let change = any_finite();
+            let d: i64 = kani::any();
+            let other: i64 = kani::any();
+            unsafe {
+                CONV_IN = change.to_bits();
+                CONV_OUT = d;
+                CONV_OTHER = other;
+            }
+            (change, d)
+        }
+    }
+}
+
+/// One call of `steer_offset` in the step branch from an arbitrary pre-state.
+/// `defect`: true = only the region of the known `NtpDuration::abs(i64::MIN)` defect,
+/// false = everything else.
+fn step_body(conv: Conv, defect: bool) {
+    let sc = any_step_cfg();
+    let step_threshold: f64 = kani::any();
+    let freq_delta = any_finite();
+    let (change, d_want) = any_correction(conv);
+    // this harness drives the step branch; the slew branch is c01_slew_no_step / C02
+    kani::assume(change.abs() > step_threshold);
+    // region of the known defect: |i64::MIN| is not representable, `NtpDuration::abs` overflows
+    let in_defect_region = !sc.in_startup && d_want == i64::MIN;
+    kani::assume(in_defect_region == defect);
+
+    let algo = AlgorithmConfig { step_threshold, ..AlgorithmConfig::default() };
+    let mut c = controller(&sc, algo, 0.0, 0.0);
+    arm_step_policy(&sc);
+
+    let upd = kh::steer_offset(&mut c, change, freq_delta);
+
+    // reached only if the daemon did not stop
+    unsafe {
+        assert!(!EXITED, "no exit on a returning path");
+        assert!(STEP_N <= 1, "at most one step per correction");
+        if STEP_N == 1 {
+            let d = STEP_D[0];
+            assert!(step_allowed(d), "a recorded step respects the thresholds in force");
+            assert!(d == d_want, "the step applied is the correction that was asked for");
+            let acc = tt::dur_raw(kh::controller_timedata(&c).accumulated_steps);
+            if sc.in_startup {
+                assert!(within(sc.start_fwd, sc.start_bwd, d), "startup: -bwd < d < fwd (startup threshold)");
+                assert!(acc == sc.acc0, "startup steps are not accumulated");
+            } else {
+                assert!(within(sc.single_fwd, sc.single_bwd, d), "running: -bwd < d < fwd (single-step threshold)");
+                assert!(acc == acc_after(sc.acc0, d), "accumulated' = accumulated + |d| (saturating)");
+                if let Some(l) = sc.acc_limit {
+                    assert!(acc <= l, "accumulated' within the accumulated-step threshold");
+                }
+            }
+            match &upd.source_message {
+                Some(m) => assert!(kh::message_step(m) == Some(change), "sources are told about the step"),
+                None => assert!(false, "step without a message to the sources"),
+            }
+        }
+        assert!(kh::controller_in_startup(&c) == sc.in_startup, "steer_offset does not touch in_startup");
+        assert!(FREQ_N == 0, "a step does not change the frequency");
+        kani::cover!(STEP_N == 1 && sc.in_startup, "step during startup");
+        kani::cover!(STEP_N == 1 && !sc.in_startup && sc.acc_limit.is_some() && sc.acc0 > 0, "step after startup with an accumulated limit");
+        kani::cover!(STEP_N == 1 && STEP_D[0] < 0 && sc.single_bwd.is_some() && !sc.in_startup, "backward step under a finite backward threshold");
+        kani::cover!(STEP_N == 1 && sc.start_fwd.is_none() && sc.in_startup && STEP_D[0] == i64::MAX, "saturated forward step with infinite threshold");
+    }
+}
+
+harness! {
+    #[kani::stub(std::process::exit, crate::common::exit_stub)]
+    fn c01_step() {
+        step_body(Conv::WholeSeconds, false);
+    }
+}
+
+harness! {
+    #[kani::stub(std::process::exit, crate::common::exit_stub)]
+    #[kani::stub(ntp_proto::NtpDuration::from_seconds, crate::c01::from_seconds_uf)]
+    fn c01_step_any() {
+        step_body(Conv::Uninterpreted, false);
+    }
+}
+
+// Known finding: a correction of -2^31 s or below converts to i64::MIN duration units whose
+// absolute value wraps (release) / overflows (dev) in `check_offset_steer`.
+harness! {
+    #[kani::stub(std::process::exit, crate::common::exit_stub)]
+    fn c01_step_kf_abs_min() {
+        step_body(Conv::WholeSeconds, true);
+    }
+}
+
+/// `check_offset_steer` alone (the threshold decision): it returns only if the step is allowed,
+/// and then the accumulated total has been updated.
+harness! {
+    #[kani::stub(std::process::exit, crate::common::exit_stub)]
+    fn c01_check() {
+        let sc = any_step_cfg();
+        let (change, d_want) = any_correction(Conv::WholeSeconds);
+        kani::assume(!(!sc.in_startup && d_want == i64::MIN));
+        let mut c = controller(&sc, AlgorithmConfig::default(), 0.0, 0.0);
+        arm_step_policy(&sc);
+        kh::check_offset_steer(&mut c, change);
+        unsafe {
+            assert!(!EXITED, "no exit on a returning path");
+            assert!(step_allowed(d_want), "the check returns only for corrections within the thresholds");
+            assert!(STEP_N == 0, "the check itself does not step");
+            let acc = tt::dur_raw(kh::controller_timedata(&c).accumulated_steps);
+            if sc.in_startup {
+                assert!(acc == sc.acc0, "startup steps are not accumulated");
+            } else {
+                assert!(acc == acc_after(sc.acc0, d_want), "accumulated' = accumulated + |d|");
+            }
+            kani::cover!(!sc.in_startup && d_want < 0 && sc.acc_limit == Some(acc), "accumulated total exactly at the limit is accepted");
+            kani::cover!(sc.in_startup && sc.start_bwd.is_some() && d_want < 0, "startup backward step accepted");
+        }
+    }
+}
+
+/// Slew branch: never steps, never accumulates (set-up shared with C02).
+harness! {
+    #[kani::stub(std::process::exit, crate::common::exit_unexpected)]
+    #[kani::stub(std::time::Duration::from_secs_f64, crate::c02::duration_from_secs_f64_stub)]
+    fn c01_slew_no_step() {
+        let s = crate::c02::slew_setup();
+        let sc = s.sc;
+        let mut c = s.ctl;
+        arm_step_policy(&sc);
+        let _ = kh::steer_offset(&mut c, s.change, s.freq_delta);
+        unsafe {
+            assert!(STEP_N == 0, "a slew never steps the clock");
+            assert!(!EXITED, "a slew never stops the daemon");
+            assert!(tt::dur_raw(kh::controller_timedata(&c).accumulated_steps) == sc.acc0, "slews do not accumulate");
+            kani::cover!(FREQ_N == 1, "slew started");
+        }
+    }
+}
+
+/// After `new()`: nothing accumulated, in startup, the accumulated limit is the configured one,
+/// and no clock call has been made.
+harness! {
+    fn c01_init() {
+        let sc = any_step_cfg();
+        let f = any_finite();
+        unsafe { CLOCK_FREQ = f; }
+        let c: KalmanClockController<RecClock> =
+            match <KalmanClockController<RecClock> as InternalTimeSyncController>::new(RecClock, sync_config(&sc), AlgorithmConfig::default()) {
+                Ok(c) => c,
+                Err(_) => { assert!(false, "new() fails"); return; }
+            };
+        let td = kh::controller_timedata(&c);
+        assert!(tt::dur_raw(td.accumulated_steps) == 0, "accumulated_steps starts at zero");
+        assert!(td.accumulated_steps_threshold.map(tt::dur_raw) == sc.acc_limit, "published limit is the configured one");
+        assert!(kh::controller_in_startup(&c), "starts in startup");
+        assert!(kh::controller_desired_freq(&c) == 0.0, "no slew in progress");
+        assert!(kh::controller_freq_offset(&c) == f, "frequency offset is what the kernel reported");
+        assert!(kh::controller_source_count(&c) == 0, "no sources yet");
+        unsafe {
+            assert!(STEP_N == 0 && FREQ_N == 0, "construction does not touch the clock");
+        }
+        kani::cover!(sc.acc_limit.is_some(), "with an accumulated limit");
+    }
+}
+
